@@ -237,23 +237,79 @@ func genRequest(r *rand.Rand) *proto.SSHCertificateSigningRequest {
 
 const reqID = 7
 
-// runSign runs one fail-over case and emits it.
+// runSign runs one fail-over case on a fresh Signer and emits it.
 func (e *env) runSign(class string, eps []int, behs map[int]beh, retries uint) {
 	c := e.c
 	req := genRequest(c.Rng) // drawn before Skip so that a replay of one index sees the same random stream
 	if c.Skip() {
 		return
 	}
-	e.behs = map[string]beh{}
-	for ep, b := range behs {
-		e.behs[ips[ep-1]] = b
-	}
-	e.farm.Take()
 	signer, err := e.newSigner(eps, retries)
 	if err != nil {
 		c.Native("NewSigner failed on a valid configuration: "+err.Error(), fmt.Sprint(eps))
 		return
 	}
+	e.signCall(class, signer, eps, behs, retries, req, nil)
+}
+
+// runHistory makes several consecutive Sign calls on ONE Signer while the
+// endpoints' behaviour changes between the calls.  The property is per call
+// (every call contacts the endpoints strictly in configured order, whatever
+// happened before), so each call is emitted as a case of its own and judged by
+// the same stateless oracle and model; the earlier calls are kept in the
+// human rendering.  When a single index is replayed the whole history it
+// belongs to is re-run (earlier calls are what may have left state behind).
+func (e *env) runHistory(class string, eps []int, calls []map[int]beh) {
+	c := e.c
+	reqs := make([]*proto.SSHCertificateSigningRequest, len(calls))
+	for i := range calls {
+		reqs[i] = genRequest(c.Rng)
+	}
+	first := c.NextIndex()
+	if c.Only >= 0 && (c.Only < first || c.Only >= first+len(calls)) {
+		for range calls {
+			c.Skip()
+		}
+		return
+	}
+	signer, err := e.newSigner(eps, 1)
+	if err != nil {
+		c.Native("NewSigner failed on a valid configuration: "+err.Error(), fmt.Sprint(eps))
+		return
+	}
+	var before []string
+	for i, behs := range calls {
+		e.signCall(fmt.Sprintf("%s/call%d", class, i+1), signer, eps, behs, 1, reqs[i], before)
+		vec := ""
+		for _, ep := range eps {
+			if b := behs[ep]; b.kind == "reply" && hasKey(b) {
+				vec += fmt.Sprintf(" %d:ok", ep)
+			} else {
+				vec += fmt.Sprintf(" %d:FAIL(%s)", ep, b.kind)
+			}
+		}
+		before = append(before, fmt.Sprintf("call %d:%s", i+1, vec))
+	}
+}
+
+func hasKey(b beh) bool {
+	for _, l := range b.lines {
+		if l.key != 0 {
+			return true
+		}
+	}
+	return false
+}
+
+// signCall makes one Sign call on signer and emits it as a case.
+func (e *env) signCall(class string, signer *crypki.Signer, eps []int, behs map[int]beh, retries uint,
+	req *proto.SSHCertificateSigningRequest, earlier []string) {
+	c := e.c
+	e.behs = map[string]beh{}
+	for ep, b := range behs {
+		e.behs[ips[ep-1]] = b
+	}
+	e.farm.Take()
 	sent := gproto.Clone(req).(*proto.SSHCertificateSigningRequest)
 	var certs []ssh.PublicKey
 	var comms []string
@@ -318,6 +374,7 @@ func (e *env) runSign(class string, eps []int, behs map[int]beh, retries uint) {
 		core.GApp("CSign", core.GList(epItems), core.GList(behItems), core.GN(reqID), core.GList(logItems),
 			core.GList(certIDs), core.GStrList(comms), canonErr(serr)),
 		map[string]interface{}{"endpoints": eps, "behaviour": behHuman, "retries": retries,
+			"earlier_calls_on_this_signer": earlier,
 			"requests_seen(endpoint:unchanged)": logHuman, "certs": certIDs, "comments": comms, "err": fmt.Sprint(serr)})
 }
 
@@ -434,8 +491,41 @@ func run(c *core.Ctx) {
 		e.runBackoff("regression-zero-base", 0, 3.0, 15*time.Second, 0.2, a)
 	}
 
-	// ---- (i) fail-over: every length 0..4 x every success/failure vector
+	// ---- (0') histories on ONE signer: what an earlier call did must not change whom the next call
+	// contacts first.  Fixed patterns first (F = the endpoint fails, S = it signs):
 	down := beh{kind: "down"}
+	fail := func() beh { return genFailure(r, e.keys, false) }
+	okb := func() beh { return genReply(r, e.keys, 1+r.Intn(3)) }
+	vecBeh := func(eps []int, pat string) map[int]beh {
+		m := map[int]beh{}
+		for i, ep := range eps {
+			switch {
+			case ep == 5:
+				m[ep] = down
+			case pat[i] == 'S':
+				m[ep] = okb()
+			default:
+				m[ep] = fail()
+			}
+		}
+		return m
+	}
+	history := func(class string, eps []int, pats ...string) {
+		var calls []map[int]beh
+		for _, p := range pats {
+			calls = append(calls, vecBeh(eps, p))
+		}
+		e.runHistory(class, eps, calls)
+	}
+	history("history-recovered", []int{1, 2}, "FS", "SS")                 // endpoint 1 is back: it must be asked first again
+	history("history-recovered", []int{3, 1, 4}, "FFS", "SSS", "SFS")
+	history("history-after-all-fail", []int{2, 4}, "FF", "SS", "FF", "SS")
+	history("history-after-all-fail", []int{4, 3, 2, 1}, "FFFF", "FSSS", "SSSS")
+	history("history-last-then-first", []int{1, 2, 3, 4}, "FFFS", "FSSS", "SSSS")
+	history("history-down-first", []int{5, 2, 3}, "FFS", "FSS", "FSF")
+	history("history-same-twice", []int{2, 1}, "SS", "SS")
+
+	// ---- (i) fail-over: every length 0..4 x every success/failure vector
 	rounds := c.N(5, 120)
 	slowBudget := c.N(3, 40)
 	for round := 0; round < rounds; round++ {
@@ -472,6 +562,32 @@ func run(c *core.Ctx) {
 			}
 		}
 	}
+	// ---- (i') random histories: 2..4 calls on one signer over 2..4 endpoints, a fresh outcome vector per call
+	for i, n := 0, c.N(40, 800); i < n; i++ {
+		L := 2 + r.Intn(3)
+		perm := r.Perm(4)
+		eps := make([]int, L)
+		for j := range eps {
+			eps[j] = perm[j] + 1
+		}
+		if r.Intn(8) == 0 {
+			eps[r.Intn(L)] = 5
+		}
+		k := 2 + r.Intn(3)
+		pats := make([]string, k)
+		for j := range pats {
+			b := make([]byte, L)
+			for x := range b {
+				b[x] = "FS"[r.Intn(2)]
+			}
+			if j > 0 && r.Intn(3) == 0 { // everybody healthy after trouble: the sharpest test
+				b = []byte(strings.Repeat("S", L))
+			}
+			pats[j] = string(b)
+		}
+		history("history-random", eps, pats...)
+	}
+
 	// ---- (ii) every failure kind alone and before a success, every status code
 	for _, code := range plainCodes {
 		e.runSign("each-code", []int{2}, map[int]beh{2: {kind: "status", code: code}}, 1)
